@@ -28,6 +28,8 @@ EDGE = [
     "duration('315576000000s') - duration('-1s')", "timestamp('2009-02-13T23:31:30Z') + 1", "[1] + 1", "'a' + 1", "b'a' + 'a'", "1 + 1u", "1 + 1.0",
     "[1, 'a'] == [1, 'a']", "{'a': 1} == {'a': 1.0}", "type(1) == type(1u)", "type(type(1))", "[] + []", "{} == {}", "[[]] == [[]]",
     "1 == 1.0 || true", "(1 / 0 == 1) || (1 / 0 == 1)", "(1 / 0 == 1) && (1 / 0 == 1)", "1 / 0 == 1 ? 1 : 2", "[1, 2].map(x, x / 0)", "[1, 2].filter(x, x / 0 == 1)",
+    "[1, 2].map(x, [10, 20].map(x, x))", "[[1], [2]].map(x, x.map(x, x + 1))", "[1, 2].filter(x, [2, 3].exists(x, x == 3))", "[1, 2].map(x, [x].map(y, x + y))",
+    "[1, 2].exists(x, [x].all(x, x > 1))", "[[1, 2], [3]].map(l, l.filter(l, l > 1))", "[1].map(x, [2].map(y, [3].map(x, x + y)))",
     "google.protobuf.Struct{a: 1}.b", "has(google.protobuf.Struct{a: 1}.b)", "google.protobuf.Struct{}.a || true",
     "[0, 0, 5].all(i, 4 / i > 1)", "[0, 0, 1].exists(i, 4 / i > 1)", "[1].exists_one(x, x / 0 == 1)", "[[1]].map(x, x.map(y, y + 1))", "[1].map(x, [x].map(x, x + 1))",
 ]
